@@ -1,0 +1,34 @@
+//go:build verif
+
+// Contracts for the scalar time codecs (property C08, reduced core). Comment-only.
+// nsOf(t) is the instant of t in nanoseconds since the Unix epoch (mathematical integer).
+
+package vgirpc
+
+// date32: the UTC calendar day of t, floor division (days before 1970 are negative), for
+// every time whose day number fits the wire type.
+//
+//@ pure func dayOf(ns int) int = ns / 86400000000000
+//@ func daysSinceEpoch
+//@   property C08
+//@   ensures [day] -2147483648 <= dayOf(nsOf(t)) && dayOf(nsOf(t)) <= 2147483647 ==> result == dayOf(nsOf(t))
+
+// time64[us]: microseconds since UTC midnight.
+//
+//@ func microsSinceMidnight
+//@   property C08
+//@   ensures [micros] result == (nsOf(t) % 86400000000000) / 1000
+//@   ensures [range] 0 <= result && result < 86400000000
+
+// timestamp: the instant v units after the epoch, for every v the wire type can carry.
+//
+//@ pure func unitNs(u arrow.TimeUnit) int = u == 0 ? 1000000000 : (u == 1 ? 1000000 : (u == 2 ? 1000 : 1))
+//@ func timestampToTime
+//@   property C08
+//@   requires ts != nil && 0 <= ts.Unit && ts.Unit <= 3
+//@   ensures [instant] nsOf(result) == v * unitNs(ts.Unit)
+//@   ensures [utc] isUTC(result)
+
+//@ lemma date32RoundTrip [C08]: forall ns int :: dayOf(dayOf(ns) * 86400000000000) == dayOf(ns) &&
+//@   dayOf(ns) * 86400000000000 <= ns && ns < (dayOf(ns) + 1) * 86400000000000
+//@ lemma timestampMicroRoundTrip [C08]: forall ns int :: ((ns / 1000) * 1000) / 1000 == ns / 1000 && ns - 1000 < (ns / 1000) * 1000 && (ns / 1000) * 1000 <= ns
